@@ -103,6 +103,9 @@ def st_Assert(ex, st, s, cx):
 
 
 def declared_local(ex, cx, name):
+    back = {v: k for k, v in (getattr(ex, 'rename', None) or {}).items()}
+    if name in back and cx.fi is ex.cur_fi:
+        name = back[name]          # the contract still knows the local by its old name
     lt = cx.local_types.get(name)
     if lt is None and cx.contract is not None and cx.root is cx:
         lt = cx.contract.locals.get(name)
@@ -523,8 +526,9 @@ def loop_core(ex, st, s, cx, o, spec, guard_fn, bind_fn, idx_sv, extra_inv=None,
         if nme in sth.vars:
             old = sth.vars[nme]
             dt = None
-            if nme in spec.get('types', {}):
-                dt = ex.tenv.parse(spec['types'][nme])
+            back_ = {v_: k_ for k_, v_ in (getattr(ex, 'rename', None) or {}).items()}
+            if back_.get(nme, nme) in spec.get('types', {}):
+                dt = ex.tenv.parse(spec['types'][back_.get(nme, nme)])
             else:
                 dt = declared_local_any(ex, cx, nme) or old.ty
             if dt.kind == 'none':
@@ -659,7 +663,8 @@ def heap_keys_of_modifies(ex, st, targets, cx):
             continue
         content = t.endswith('[*]')
         base = t[:-3] if content else t
-        tree = ast.parse(base, mode='eval').body
+        from .calls import renamed
+        tree = renamed(ex, scx, ast.parse(base, mode='eval').body)
         if content:
             obj = ex.pure(st, tree, scx)
             ty = obj.ty.args[0] if obj.ty.kind == 'opt' else obj.ty
